@@ -74,3 +74,45 @@ pub fn silence_panics() {
         LAST_PANIC_LOCATION.with(|c| *c.borrow_mut() = loc);
     }));
 }
+
+/// the observation C05 compares: both renderings of a history, or the error
+pub fn observe_history<S: AsRef<[u8]>>(docs: &[S]) -> String {
+    match guarded(|| parse_all(docs)) {
+        Ok(Ok(e)) => match guarded(|| {
+            let mut o = render(&e, Preset::QuickXml, false);
+            o.push('\u{1}');
+            o.push_str(&render(&e, Preset::QuickXml, true));
+            o.push('\u{1}');
+            o.push_str(&render(&e, Preset::SerdeXmlRs, false));
+            o
+        }) {
+            Ok(o) => o,
+            Err(p) => format!("PANIC(render): {}", p),
+        },
+        Ok(Err(e)) => format!("ERR: {}", e),
+        Err(p) => format!("PANIC(parse): {}", p),
+    }
+}
+
+/// free-running repetition of one history on the library as built (used by the hooks-off helper):
+/// `in_thread` runs on the calling thread, then one run in each of `fresh_threads` new threads
+/// (every new thread gets fresh SipHash keys). Returns the distinct observations
+pub fn repeat_history(docs: &[String], in_thread: usize, fresh_threads: usize) -> Vec<String> {
+    let mut outs: Vec<String> = Vec::new();
+    let mut push = |o: String| {
+        if !outs.contains(&o) {
+            outs.push(o);
+        }
+    };
+    for _ in 0..in_thread {
+        push(observe_history(docs));
+    }
+    for _ in 0..fresh_threads {
+        let d = docs.to_vec();
+        let o = std::thread::spawn(move || observe_history(&d))
+            .join()
+            .unwrap_or_else(|_| "PANIC(thread)".to_string());
+        push(o);
+    }
+    outs
+}
